@@ -474,3 +474,14 @@ Definition honest_produced (t : tree) (r : produced) : bool :=
   | DocOrder => strictly_sorted (map (index t) (fst r))
   | RevOrder => strictly_sorted (map (index t) (rev (fst r)))
   end.
+
+(* ---- document() (XSLT/FunctionDocument.cpp): every reference of the argument is resolved to a node (a document
+   node, or the element of a fragment identifier) and put into the result with addNodeInDocOrder - pinned from the
+   source as GenNodelist.document_function_inserts_in_doc_order - and doExecute flags the list document order *)
+Definition functionDocument (W : world) (resolved : list lnode) : option nlist :=
+  if document_function_inserts_in_doc_order then
+    match fold_left (add_step W) resolved (Some []) with
+    | None => None
+    | Some l => Some (NL l DocOrder)
+    end
+  else None.
